@@ -120,6 +120,14 @@ def run_driver_with_restart(ctx, binary, env, label):
         if rc == 0 and prog and prog[-1].startswith("done"):
             trace_all += log
             return trace_all, panics
+        if rc == 3 and prog and prog[-1].startswith("hang"):
+            # the controller could not continue a run (watchdog): what was recorded of it is kept and judged by the oracle, the driver
+            # is restarted after it
+            last = prog[-1].split(" ")
+            n = int(last[1]) if len(last) > 1 and last[1].isdigit() else skip + 1
+            trace_all += log
+            skip = n
+            continue
         if rc == 124:
             raise vlib.Inconclusive("server driver timed out")
         if "panic:" in out or "fatal error:" in out:
@@ -136,6 +144,9 @@ def run_driver_with_restart(ctx, binary, env, label):
             skip = n
             continue
         raise vlib.Inconclusive("server driver failed rc=%s\n%s" % (rc, out[-3000:]))
+    if trace_all:
+        ctx.note("the server driver had to be restarted 40 times (runs the controller could not continue / crashes); the runs recorded so far are judged")
+        return trace_all, panics
     raise vlib.Inconclusive("server driver keeps crashing")
 
 
@@ -171,6 +182,19 @@ def oracle(run, want):
     for x in run:
         if x["ev"] == "obs" and x["kind"] == "leak":
             res.append(("leak:" + ",".join(sorted(b[0].split(".")[1] + "@" + b[1] for b in x["blocked"])), "goroutines left behind: %s" % x["blocked"]))
+    # the terminate hook of a connection runs after the last handler of that connection: not while a handler of it has been entered
+    # and has not returned (a handler is entered when it arrives at its gate and returns right after its release)
+    running = {}
+    for x in run:
+        if x["ev"] in ("arr", "rel") and isinstance(x.get("p"), list):
+            c = x["p"][0]
+            if x["g"] == "u.handler":
+                running[c] = x["ev"] == "arr"
+        elif x["ev"] == "hand" and x.get("m") == "u.handler":
+            running[x["c"]] = True      # the request was handed over and the handler entered (arrival reported with the rendezvous)
+        elif x["ev"] == "obs" and x.get("kind") == "terminate-hook-entered" and running.get(x.get("c")) and "hooks" in want:
+            res.append(("hooks:terminate-hook-while-a-handler-of-the-connection-runs", "conn %d: the terminate hook is entered while a handler of the connection has not returned" % x["c"]))
+            break
     if not end:
         return res
     end = end[0]
@@ -253,8 +277,12 @@ def validate(ctx, log, want, cfg="Server_trace.cfg", module="TraceServer", oracl
             if isinstance(p, list) and len(p) == 2 and p[1] == "":
                 return x
         return None
-    remaining = []
     for r in runs:
+        if any(x["ev"] == "obs" and x.get("kind") == "driver-hang" for x in r) and not oracle_fn(r, want):
+            drift.append((r[0].get("id"), {"ev": "driver-hang"}, r[-12:]))
+    runs_ok = [r for r in runs if not any(x["ev"] == "obs" and x.get("kind") == "driver-hang" for x in r)]
+    remaining = []
+    for r in runs_ok:
         x = foreign(r)
         if x is None:
             remaining.append(r)
